@@ -79,12 +79,14 @@ def guarded(fn, texts, per=20):
 
 def run_ops(srcs, ops, texts):
     kept = {}
+    failed = {}
     out = []
     for op in ops:
         k = op[0]
         if k == "reset":
             reset_modules()
             kept.clear()
+            failed.clear()
             out.append({"ok": True, "sha": None})
         elif k == "t":
             out.append(guarded(lambda: emit(parse(srcs[op[1]])), texts))
@@ -93,9 +95,15 @@ def run_ops(srcs, ops, texts):
                 kept[i] = parse(srcs[i])
                 return None
             kept.pop(op[1], None)
-            out.append(guarded(do_parse, texts))
+            failed.pop(op[1], None)
+            r = guarded(do_parse, texts)
+            if not r["ok"]:
+                failed[op[1]] = r
+            out.append(r)
         elif k == "e":
-            if op[1] not in kept:
+            if op[1] in failed:
+                out.append(failed[op[1]])        # the transpilation ended in parse(): that is its outcome
+            elif op[1] not in kept:
                 out.append({"ok": False, "exc": "NotParsed", "sha": "exc:NotParsed"})
             else:
                 out.append(guarded(lambda: emit(kept[op[1]]), texts))
